@@ -121,3 +121,25 @@ func VerifC14_HostDefensive() {
 	_ = held
 	_ = host
 }
+
+// VerifC14_PlantedBetweenOpens: Open(path, O_CREATE) succeeds, then a program replaces the
+// path by an arbitrary object, then Open(path) again: the second open must again be checked
+// (the OpenFile stub asserts that it is reached for regular-or-absent objects only).
+func VerifC14_PlantedBetweenOpens() {
+	w := newWorld()
+	w.pathKind = map[string]int{"/w/out": objAbsent}
+	res, err := w.host.Open([]OpenCmd{{Path: "/w/out", Flag: 0x40}}) // O_CREAT
+	if err == nil && len(res) == 1 && res[0].File != nil {
+		sym.Reach("created")
+		res[0].File.Close()
+	}
+	// an untrusted program ran in between and left something else at the path
+	delete(w.pathKind, "/w/out")
+	res, err = w.host.Open([]OpenCmd{{Path: "/w/out"}})
+	if err == nil && len(res) == 1 && res[0].File != nil {
+		sym.Reach("reopened")
+		k := w.pathKind["/w/out"]
+		sym.Assert(k == objAbsent || k == objRegular, "a descriptor was handed back for a planted non-regular object")
+		res[0].File.Close()
+	}
+}
